@@ -537,6 +537,10 @@ def stepFilterOp (d : DState) (op : String) (toks impl : List String) : Option (
     let (hist, nospec) := match st with
       | .convolve c taps => if !c.isEmpty && taps.length == c.length then (taps.map (fun v => [v]), false) else (hist, nospec)
       | .delay N taps => if 0 < N && taps.length == N then (taps.map (fun v => [v]), false) else (hist, nospec)
+      | .mean N ms =>
+        if 0 < N && ms.taps.length == N && ms.mean.map V.render == some (Spec.sum ms.taps).render
+            && ms.weight.render == (V.ofNat N).render
+        then (ms.taps.map (fun v => [v]), false) else (hist, nospec)
       | _ => (hist, nospec)
     let d := (d.put id { st := st, hist := hist, base := (kv.nat "count").getD 0, tracked := kv.get "T" == some "tracked",
                          nospec := nospec }).flag "inject"
@@ -565,6 +569,20 @@ def stepFilterOp (d : DState) (op : String) (toks impl : List String) : Option (
         -- a panic the model predicts (exact division by zero shows as `err` in the model's output) is agreement
         | none => if y.any (fun v => match v with | .err => true | _ => false) then []
                   else [clauseP "no-panic" false (renderOut (some y))]
+      -- from a hand-built state no history explains the output, but the one-step recurrences are statements about ANY
+      -- state (`alphaBeta_step`, `ema_step`, `kalman_step_textbook`, `integrate_step`, `differentiate_step`: the
+      -- model's step IS the recurrence), so there the model's output is the specification
+      let stepClauses : List Clause := match implOut with
+        | some yi => if !inst.nospec then [] else (match inst.st with
+          | .alphaBeta _ _ _ => [clauseEq "C14.recurrence" y yi]
+          | .ema _ _ => [clauseEq "C13.ema-recurrence" y yi]
+          | .emedian _ _ _ _ => [clauseEq "C13.emedian-recurrence" y yi]
+          | .kalman _ _ => [clauseEq "C06.textbook" y yi]
+          | .integrate _ => [clauseEq "C15.running-sum" y yi]
+          | .differentiate _ => [clauseEq "C15.first-difference" y yi]
+          | _ => [])
+        | none => []
+      let clauses := clauses ++ stepClauses
       let d := (stepFlags inst.st st' hist).foldl DState.flag d
       let d := d.put id { inst with st := st', hist := hist, last := some implOut, own := true }
       some (report d op { model := renderOut (some y), impl := implS, clauses := clauses, kind := kindName inst.st })
